@@ -40,7 +40,7 @@ def _safe_str(ob):
 
 
 def describe_model_case(case):
-    kind = case[0]
+    kind = 'S' if (case[0] in ('SK', 'T', 'K', 'D') and is_plain(case[1])) else case[0]
     s = '%s:%s' % (kind, sh.model_str(case[1]))
     if len(case) > 2 and case[2] not in ((), None):
         s += ' | %r' % (case[2],)
@@ -49,8 +49,13 @@ def describe_model_case(case):
 
 def reduce_model_case(case):
     for m in sh.reductions(case[1], sp.NAME_POOL):
-        kind = 'S' if (case[0] == 'SK' and not m[1]) else case[0]
+        kind = 'S' if (case[0] in ('SK', 'T', 'K', 'D') and is_plain(m)) else case[0]
         yield (kind, m) + tuple(case[2:])
+
+
+def is_plain(m):
+    return not m[1] and all(f[2] is False and f[3] == 'Boolean' and tuple(f[4]) == (1, 1) and not f[5]
+                            for f in sh.features(m))
 
 
 def has_group_or_ctc(model):
@@ -117,3 +122,51 @@ def with_ctc(model, tree, name='c1', vars_=XYZ):
     for i, v in enumerate(used):
         mapping[v] = pickfrom[i % len(pickfrom)]
     return (model[0], model[1] + ((name, map_names(tree, mapping)),))
+
+
+# --------------------------------------------------------------------------- arithmetic alphabet
+
+@functools.lru_cache(maxsize=None)
+def arith_trees():
+    """Comparison / arithmetic / aggregate trees (always type-correct in UVL's sense)."""
+    nums = ['x.att', 3, 2.5, 'y.att']
+    out = []
+    for cmp_ in sh.COMPARISON:
+        out.append((cmp_, 'x.att', 3))
+        out.append((cmp_, 'x.att', 2.5))
+        out.append((cmp_, 'x.att', 'y.att'))
+    out.append(('EQUALS', 'x.name', "'txt'"))
+    out.append(('NOT_EQUALS', 'x.name', "'txt'"))
+    for op in sh.ARITH:
+        out.append(('EQUALS', (op, 'x.att', 3), 'y.att'))
+        out.append(('LOWER', 'x.att', (op, 'y.att', 2.5)))
+        for op2 in sh.ARITH:
+            out.append(('GREATER', (op, (op2, 'x.att', 'y.att'), 3), 7))
+            out.append(('LOWER_EQUALS', (op, 'x.att', (op2, 'y.att', 3)), 7))
+    for agg in ('SUM', 'AVG'):
+        out.append(('GREATER', (agg, 'att', 'x'), 3))
+        out.append(('LOWER', 2.5, (agg, 'att', 'y')))
+        out.append(('EQUALS', ('ADD', (agg, 'att', 'x'), 3), 10))
+    # mixed logical + arithmetic
+    out.append(('AND', 'x', ('GREATER', 'x.att', 3)))
+    out.append(('IMPLIES', 'x', ('EQUALS', ('SUM', 'att', 'x'), 3)))
+    out.append(('NOT', ('LOWER', 'x.att', 3), None))
+    assert nums
+    return tuple(out)
+
+
+@functools.lru_cache(maxsize=None)
+def onearg_aggregate_trees():
+    return (('EQUALS', ('LEN', 'x', None), 3), ('GREATER', ('FLOOR', 'x.att', None), 3),
+            ('LOWER', ('CEIL', 'x.att', None), 3), ('GREATER', ('SUM', 'att', None), 3),
+            ('GREATER', ('AVG', 'att', None), 3))
+
+
+CARRIER4 = sh.M(sh.F('Fa', [sh.R(0, 1, [sh.F('Bb')]), sh.R(0, 1, [sh.F('Dc')]), sh.R(0, 1, [sh.F('Ad')])]))
+CARRIER_MAP = {'x': 'Bb', 'y': 'Dc', 'z': 'Ad', 'x.att': 'Bb.att', 'y.att': 'Dc.att', 'x.name': 'Bb.name'}
+
+
+def on_carrier(trees, carrier=None):
+    """Carrier model with the given constraint trees (over x,y,z) mapped onto its features."""
+    carrier = CARRIER4 if carrier is None else carrier
+    return (carrier[0], tuple(('c%d' % (i + 1), map_names(t, CARRIER_MAP)) for i, t in enumerate(trees)))
